@@ -3,7 +3,7 @@ CONSTANTS
   Refs = {1, 2}
   Pushers = {1}
   Inits <- Inits012
-  Pushes <- LocalAll
+  PushIn <- LocalAll
   CheckCas = TRUE
   CheckObj = TRUE
   AtomicMode = "txn"
